@@ -533,7 +533,12 @@ def real_decode(data, cfg=None, allow_plugins=True):
         return ('error', type(e).__name__, str(e)[:100], out.getvalue())
     if not text:
         return ('nodoc', err.getvalue(), out.getvalue())
-    return ('doc', eid, jsonio.canon(json.loads(text, object_pairs_hook=jsonio.pairs_hook)), out.getvalue(), text)
+    try:
+        parsed = json.loads(text, object_pairs_hook=jsonio.pairs_hook)
+    except ValueError as e:
+        # the decoder returned text that is not JSON at all: an outcome (a violation wherever a document is due), not a harness error
+        return ('invalid-json', eid, str(e)[:200], out.getvalue(), text)
+    return ('doc', eid, jsonio.canon(parsed), out.getvalue(), text)
 
 
 def dec_outcome(r):
